@@ -87,7 +87,25 @@ pub fn poly_case(cx: &mut Ctx, n: u64, case: &Value) {
             let mut dup = e.0.clone();
             let k = (n as usize + ei) % (dup.len() - 1);
             dup.insert(k, dup[k]);
-            for (what, ring) in [("ring", e.clone()), ("ring with a repeated vertex", LineString::new(dup))] {
+            // more repetition: every vertex three times; the closing vertex twice more; the first vertex twice more
+            let tripled = LineString::new(e.0.iter().flat_map(|c| [*c, *c, *c]).collect());
+            let mut closed_thrice = e.0.clone();
+            closed_thrice.push(*e.0.last().unwrap());
+            closed_thrice.push(*e.0.last().unwrap());
+            let mut opened_thrice = e.0.clone();
+            opened_thrice.insert(0, e.0[0]);
+            opened_thrice.insert(0, e.0[0]);
+            // orient must also turn such rings (same region, repeated coordinates)
+            for (dir, ext_ccw) in [(Direction::Default, true), (Direction::Reversed, false)] {
+                let o = Polygon::new(LineString::new(closed_thrice.clone()), holes.iter().map(|h| { let mut v = h.0.clone(); v.push(*h.0.last().unwrap()); v.push(*h.0.last().unwrap()); LineString::new(v) }).collect()).orient(dir);
+                let ok = (o.signed_area() > 0.0) == ext_ccw && o.unsigned_area() == area
+                    && o.interiors().iter().all(|h| (Polygon::new(h.clone(), vec![]).signed_area() > 0.0) != ext_ccw);
+                if ok { cx.ok("orient_repeated_closing_vertex"); } else {
+                    cx.bad("C05", "orient_repeated_closing_vertex", case, json!({"what": format!("{dir:?} shell variant {ei}"), "got": gj::geometry_to_json(&Geometry::Polygon(o))}));
+                }
+            }
+            for (what, ring) in [("ring", e.clone()), ("ring with a repeated vertex", LineString::new(dup)), ("every vertex three times", tripled),
+                                 ("closing vertex three times", LineString::new(closed_thrice)), ("first vertex three times", LineString::new(opened_thrice))] {
                 let got = ring.winding_order();
                 if got == Some(want) { cx.ok("winding_order"); } else {
                     cx.bad("C05", "winding_order", case, json!({"what": format!("{what}, shell variant {ei}"), "ring": ring.0.iter().map(|c| [c.x, c.y]).collect::<Vec<_>>(), "got": format!("{got:?}"), "want": format!("{want:?}")}));
